@@ -404,11 +404,17 @@ func (p c20) use(c *core.Ctx, clock *opClock, G int, mixed bool) {
 	}
 }
 
+var firstUseErrs []string
+
 // firstUse: a freshly compiled module with union / leafref / enum / identityref / bits leaves is used for the
 // first time by G goroutines at once (lazily cached fields would be written concurrently); the sequential
 // baseline is computed afterwards on a second, fresh load of the same text.
 func (p c20) firstUse(c *core.Ctx, clock *opClock, G int) {
-	text := `module m { namespace "urn:m"; prefix m; revision 2020-01-01;
+	imp := `module ids { namespace "urn:ids"; prefix ids; revision 2020-01-01; identity ext-base; identity e1 { base ext-base; } identity e2 { base e1; }
+  typedef ext-ref { type identityref { base ext-base; } } }`
+	text := `module m { namespace "urn:m"; prefix m; import ids { prefix ids; } revision 2020-01-01;
+  identity local-e { base ids:ext-base; }
+  leaf gi { type identityref { base ids:ext-base; } } leaf gt { type ids:ext-ref; } leaf-list gl { type ids:ext-ref; } leaf gu { type union { type int8; type ids:ext-ref; } }
   typedef t1 { type int32 { range "0..100"; } default "5"; units "u"; } typedef t2 { type t1 { range "10..20"; } }
   typedef u1 { type union { type int32; type string; } }
   identity base; identity d1 { base base; } identity d2 { base d1; }
@@ -416,12 +422,21 @@ func (p c20) firstUse(c *core.Ctx, clock *opClock, G int) {
   leaf-list dl { type u1; } leaf f { type leafref { path "../a"; } } leaf g { type identityref { base base; } } leaf h { type bits { bit b0; bit b1; } }
   leaf s { type string { pattern "[a-z]+"; length "1..10"; } } leaf dec { type decimal64 { fraction-digits 2; range "0..10"; } }
   list l { key k; leaf k { type string; } leaf v { type t1; } leaf w { type u1; } }
-  container c { when "a>5"; leaf inner { type string; } } }`
+  container c { leaf inner { type string; } leaf wl { when "inner='i'"; type string; } } leaf tl { when "a>5"; type string; }
+  container cd { leaf n { type int32; } leaf-list tags { type string; default "a"; default "b"; } leaf-list nums { type int32; default "1"; default "2"; } } }`
 	doc := func(g int) string {
-		return fmt.Sprintf(`{"a":%d,"b":"x","d":"text%d","d2":%d,"dl":[1,"two",3],"f":%d,"g":"d2","h":"b0 b1","s":"abc","dec":1.5,"l":[{"k":"k%d","v":7,"w":"s"},{"k":"z%d","v":8,"w":9}],"c":{"inner":"i"}}`, 10+g%10, g, g%200, 10+g%10, g, g)
+		return fmt.Sprintf(`{"gi":"e2","gt":"e1","gl":["e1","local-e"],"gu":"e2","a":%d,"b":"x","d":"text%d","d2":%d,"dl":[1,"two",3],"f":%d,"g":"d2","h":"b0 b1","s":"abc","dec":1.5,"l":[{"k":"k%d","v":7,"w":"s"},{"k":"z%d","v":8,"w":9}],"c":{"inner":"i","wl":"w"},"tl":"t","cd":{"n":1}}`, 10+g%10, g, g%200, 10+g%10, g, g)
 	}
 	load := func() *meta.Module {
-		m, err := parser.LoadModuleFromString(nil, text)
+		m, err := parser.LoadModule(func(name, ext string) (io.Reader, error) {
+			switch name {
+			case "m":
+				return strings.NewReader(text), nil
+			case "ids":
+				return strings.NewReader(imp), nil
+			}
+			return nil, nil
+		}, "m")
 		if err != nil {
 			c.Violate("first-use/load-error", "%v", err)
 			return nil
@@ -440,6 +455,9 @@ func (p c20) firstUse(c *core.Ctx, clock *opClock, G int) {
 				clk.end(kind, t0)
 			}
 			out = append(out, fmt.Sprintf("%s:%v:%s", kind, err, res))
+			if err != nil && g == 0 && clk == nil {
+				firstUseErrs = append(firstUseErrs, kind+": "+err.Error())
+			}
 		}
 		data := map[string]interface{}{}
 		b := node.NewBrowser(m, nodeutil.ReflectChild(data))
@@ -458,6 +476,43 @@ func (p c20) firstUse(c *core.Ctx, clock *opClock, G int) {
 			return "", b.Root().UpsertFrom(n)
 		})
 		step("json", func() (string, error) { return nodeutil.WriteJSON(b.Root()) })
+		// the application changes ITS data in place: whatever the library handed out (defaults of a created container ...) must
+		// not be the schema's own storage
+		step("scribble", func() (string, error) {
+			n := 0
+			var rec func(v interface{})
+			rec = func(v interface{}) {
+				switch x := v.(type) {
+				case map[string]interface{}:
+					for _, e := range x {
+						rec(e)
+					}
+				case map[interface{}]interface{}:
+					for _, e := range x {
+						rec(e)
+					}
+				case []string:
+					for i := range x {
+						x[i] = "SCRIBBLED"
+						n++
+					}
+				case []int32:
+					for i := range x {
+						x[i] = -77
+						n++
+					}
+				case []int:
+					for i := range x {
+						x[i] = -77
+						n++
+					}
+				}
+			}
+			if cd, ok := data["cd"]; ok {
+				rec(cd)
+			}
+			return fmt.Sprint(n > 0), nil
+		})
 		step("xml", func() (string, error) { return nodeutil.WriteXMLDoc(b.Root(), false) })
 		step("find", func() (string, error) {
 			sel, err := b.Root().Find(fmt.Sprintf("l=k%d", g))
@@ -498,6 +553,13 @@ func (p c20) firstUse(c *core.Ctx, clock *opClock, G int) {
 	if m == nil {
 		return
 	}
+	defer func() {
+		// the workload is meant to succeed step by step (except "reject"): a step that fails for everyone exercises nothing
+		for _, e := range firstUseErrs {
+			c.R.Inconclusive = "a step of the first-use workload fails in the sequential baseline: " + head(e, 200)
+		}
+		firstUseErrs = nil
+	}()
 	fpBefore := walk.Fingerprint(m)
 	got := make([][]string, G)
 	pan := make([]interface{}, G)
@@ -540,5 +602,22 @@ func (p c20) firstUse(c *core.Ctx, clock *opClock, G int) {
 	c.Eval()
 	if fpAfter != fpBefore {
 		c.Violate("first-use/module-mutated/fingerprint", "using the compiled module changed it (reflection fingerprint %x -> %x): some accessor caches into the shared schema", fpBefore, fpAfter)
+	}
+	// what the public accessors report after use equals what a module nobody used reports
+	c.Eval()
+	if m3 := load(); m3 != nil {
+		d3, _ := walk.Dump(m3)
+		dm, _ := walk.Dump(m)
+		if a, b := walk.JSON(dm), walk.JSON(d3); a != b {
+			i := 0
+			for i < len(a) && i < len(b) && a[i] == b[i] {
+				i++
+			}
+			lo := i - 120
+			if lo < 0 {
+				lo = 0
+			}
+			c.Violate("first-use/module-mutated/accessors", "after use the schema reports something else than a freshly loaded one: ...%s   vs fresh   ...%s", head(a[lo:], 300), head(b[lo:], 300))
+		}
 	}
 }
